@@ -25,6 +25,10 @@ def main():
     _reexec_if_needed()
     here = os.path.dirname(os.path.abspath(__file__))
     sys.path.insert(0, here)
+    if os.environ.get("PPSIM_REPO"):
+        # development aid: run the checks against a scratch copy / worktree of the repository
+        # (registered commands never set this: they use the editable install of /repo)
+        sys.path.insert(0, os.environ["PPSIM_REPO"])
     import warnings
     warnings.filterwarnings("ignore")
     import logging
